@@ -7,7 +7,7 @@
    not yet covered by a theorem are decided by the implementation <-> specification <->
    hardware differential run only (listed as unproved_forms in the evidence). *)
 From Coq Require Import ZArith Bool List.
-From AxV Require Import Bits Outcome Codes Iced State Rt Mem Trace Exec ExecP FrameTac FrameP ByteStore RegFile RegsP ISA CodeSem IsaP OperandP RmP MovP DivP Examples.
+From AxV Require Import Bits Outcome Codes Iced State Rt Mem Trace Exec ExecP FrameTac FrameP ByteStore RegFile RegsP ISA CodeSem IsaP OperandP RmP MovP StoreP DivP Examples.
 From AxG Require Import Flags Regs Operand Helpers Dispatch Frame I_div I_idiv I_mov.
 Local Open Scope Z_scope.
 
@@ -77,6 +77,23 @@ Theorem C06_store_to_write_only_refuted :
   forall c, instr_mov_rm64_r64 c mov_store wo_state = (Err EPerm, wo_state).
 Proof. exact store_to_write_only_refuted. Qed.
 
+(* ... and the exact boundary of that finding for MOV [m], r64: when the destination is readable the
+   instruction is the specification's store (it fails exactly when the store is refused); when it is
+   not, the step fails whatever the specification does *)
+Theorem C06_mov_m64_r64_exact : forall c i s,
+  wf_regs s -> Inv (mem s) -> i_op_count i = 2 -> i_op_kind i 0 = OK_Memory -> wf_mem_instr i ->
+  i_op_kind i 1 = OK_Register -> is_gpr64 (i_op_register i 1) = true -> i_code i = C_Mov_rm64_r64 ->
+  match load 8 (ea i s) s with
+  | Some _ =>
+      match isa_exec (SMov 64) i s with
+      | IDone s' u => instr_mov_rm64_r64 c i s = (Ok tt, s') /\ u = 0
+      | IFault FMem => exists e, instr_mov_rm64_r64 c i s = (Err e, s)
+      | IFault _ => False
+      end
+  | None => exists e, instr_mov_rm64_r64 c i s = (Err e, s)
+  end.
+Proof. exact mov_m64_r64_exact. Qed.
+
 (* non-vacuity: the hypotheses hold of DIV RCX with RDX:RAX = 2^64+7, RCX = 3, and the run gives
    6148914691236517207 remainder 2 *)
 Example C06_example :
@@ -93,3 +110,4 @@ Print Assumptions C06_div_rm64.
 Print Assumptions C06_idiv_rm64_partial.
 Print Assumptions C06_mov_r64_m64.
 Print Assumptions C06_store_to_write_only_refuted.
+Print Assumptions C06_mov_m64_r64_exact.
